@@ -2,16 +2,16 @@
 # usage: scripts/mkseedprompt.sh <ID> [n] — creates a scratch worktree /tmp/wt-<ID> of /repo HEAD and the prompt file
 # /tmp/seedprompt/<ID>.txt for an independent sub-agent (which sees only the property text and its worktree).
 set -e
-id=$1; n=${2:-3}
-wt=/tmp/wt-$id; out=/tmp/seed-out/$id
+id=$1; n=${2:-3}; suf=${3:-}
+wt=/tmp/wt-$id$suf; out=/tmp/seed-out/$id$suf
 [ -d "$wt" ] || git -C /repo worktree add -q --detach "$wt" HEAD
 mkdir -p "$out" /tmp/seedprompt
-python3 - "$id" "$n" "$wt" "$out" <<'PY'
+python3 - "$id" "$n" "$wt" "$out" "$suf" <<'PY'
 import sys, json
-id, n, wt, out = sys.argv[1:]
+id, n, wt, out = sys.argv[1:5]
 prop = [l for l in open('/verif/properties.jsonl') if json.loads(l)['id'] == id][0].strip()
 t = open('/verif/scripts/agent_seed_prompt.txt').read()
 t = t.replace('__PROPERTY__', prop).replace('__N__', n).replace('__WT__', wt).replace('__OUT__', out)
-open('/tmp/seedprompt/%s.txt' % id, 'w').write(t)
+open('/tmp/seedprompt/%s.txt' % (id + sys.argv[5] if len(sys.argv) > 5 else id), 'w').write(t)
 PY
-echo /tmp/seedprompt/$id.txt
+echo /tmp/seedprompt/$id$suf.txt
